@@ -55,3 +55,41 @@ def supplyOK (genesis credits locks burns : List (String × Nat)) (sup : SupView
   denoms.all (supplyEq genesis credits locks burns sup)
 
 end Sif.Spec.C07
+
+namespace Sif.EthBridge
+open Sif.Oracle Sif.Spec.C06
+
+def Out.events : Out → List Event
+  | .event e => [e]
+  | _ => []
+
+/-- amount of denomination `d` that a step of a history credits (an accepted claim that reports SUCCESS) -/
+def stepCredited (ord : List Group → List Group) (w : World) (st : Step) (d : String) : Nat :=
+  match st with
+  | .msg (.claim m) =>
+    if (deliver ord w.vals w.s (.claim m)).2 = .claimed .success then
+      match creditOf (finalOf (deliver ord w.vals w.s (.claim m)).1.oracle (claimOf m).id) with
+      | some c => if d = c.2.1 then c.2.2 else 0
+      | none => 0
+    else 0
+  | _ => 0
+
+/-- amount of `d` a step locks (a successful `MsgLock`) -/
+def stepLocked (ord : List Group → List Group) (w : World) (st : Step) (d : String) : Nat :=
+  match st with
+  | .msg (.lock m) => if (deliver ord w.vals w.s (.lock m)).2.isOk then (if d = m.symbol then m.amount.toNat else 0) else 0
+  | _ => 0
+
+/-- amount of `d` a step burns (a successful `MsgBurn`) -/
+def stepBurned (ord : List Group → List Group) (w : World) (st : Step) (d : String) : Nat :=
+  match st with
+  | .msg (.burn m) => if (deliver ord w.vals w.s (.burn m)).2.isOk then (if d = m.symbol then m.amount.toNat else 0) else 0
+  | _ => 0
+
+/-- sum of a per-step quantity along a history -/
+def sumOver (f : (List Group → List Group) → World → Step → String → Nat) (ord : List Group → List Group) (w : World) :
+    List Step → String → Nat
+  | [], _ => 0
+  | st :: rest, d => f ord w st d + sumOver f ord (stepWorld ord w st) rest d
+
+end Sif.EthBridge
